@@ -143,7 +143,36 @@ fn run_work<F: MathFunction + RenderHints + Clone>(
                 cancel,
             };
             let b = s.try_into().map_err(|_| Fail::new("harness", "vars"))?;
-            Ok(fidget_raster::pixel::render::<F>(b, &cfg, &ec).map(|img| {
+            let Some(img) = fidget_raster::pixel::render::<F>(b, &cfg, &ec) else {
+                return Ok(None);
+            };
+            // post-processing runs under the same pool (or none): every
+            // deterministic effect, plus a direct index oracle for
+            // Image::apply_effect (pixel (x, y) is stored at y * width + x)
+            let mut post: Vec<u64> = vec![];
+            {
+                use fidget_raster::effects;
+                let mut t = fidget_raster::Image::<f32>::new(ImageSize::new(*w, *h));
+                let wd = *w as usize;
+                t.apply_effect(|x, y| (x + y * wd) as f32, pool);
+                for (i, v) in t.as_slice().iter().enumerate() {
+                    if *v != i as f32 {
+                        return Err(Fail::new(
+                            "apply-effect-index",
+                            format!(
+                                "Image::apply_effect on a {w}x{h} image with {}: element {i} holds f(x, y) of pixel index {v}",
+                                if pool.is_some() { "a pool" } else { "no pool" }
+                            ),
+                        ));
+                    }
+                }
+                let px = |v: &[u8; 4]| u32::from_le_bytes(*v) as u64;
+                post.extend(effects::to_rgba_bitmap(img.clone(), false, pool).iter().map(px));
+                post.extend(effects::to_rgba_bitmap(img.clone(), true, pool).iter().map(px));
+                post.extend(effects::to_debug_bitmap(img.clone(), pool).iter().map(px));
+                post.extend(effects::to_rgba_distance(img.clone(), pool).iter().map(px));
+            }
+            Ok(Some(img).map(|img| {
                 Out::Image2(
                     img.iter()
                         .map(|p| match p.unpack() {
@@ -158,6 +187,7 @@ fn run_work<F: MathFunction + RenderHints + Clone>(
                                 (1u64 << 41) | ((depth as u64) << 1) | inside as u64
                             }
                         })
+                        .chain(post.iter().copied())
                         .collect(),
                 )
             }))
@@ -181,12 +211,15 @@ fn run_work<F: MathFunction + RenderHints + Clone>(
             };
             let b = s.try_into().map_err(|_| Fail::new("harness", "vars"))?;
             Ok(fidget_raster::voxel::render::<F>(b, &cfg, &ec).map(|img| {
+                let nb = |v: f32| if v.is_nan() { 0x7fc00000 } else { v.to_bits() };
+                // deterministic post-processing under the same pool (or none)
+                let den = fidget_raster::effects::denoise_normals(&img, pool);
+                let shaded = fidget_raster::effects::apply_shading(&img, false, pool);
                 Out::Image3(
                     img.iter()
-                        .map(|p| {
-                            let nb = |v: f32| if v.is_nan() { 0x7fc00000 } else { v.to_bits() };
-                            [p.depth, nb(p.normal[0]), nb(p.normal[1]), nb(p.normal[2])]
-                        })
+                        .chain(den.iter())
+                        .map(|p| [p.depth, nb(p.normal[0]), nb(p.normal[1]), nb(p.normal[2])])
+                        .chain(shaded.iter().map(|c| [c[0] as u32, c[1] as u32, c[2] as u32, 0]))
                         .collect(),
                 )
             }))
@@ -640,8 +673,10 @@ impl Prop for P {
          build) x backend x {no pool, a custom rayon pool of 1..=16 threads} x a seeded perturbation plan executed at every cancellation \
          poll through the cfg(fidget_verif) hook (yield / 50-500 us delay) x a cancel plan {never, before start, exactly at \
          poll k (token set by the polling thread itself, deterministic), from another thread after 0-3 ms}. Oracle: the \
-         sequential no-pool result is the reference; never cancelled => Some and identical (images bit-for-bit, meshes as \
-         sorted multisets of triangles over vertex positions with cyclic order preserved); cancelled before start or at a \
+         sequential no-pool result is the reference; never cancelled => Some and identical (images bit-for-bit, followed by the \
+         images of every deterministic post-processing effect run under the same pool or none — to_rgba_bitmap, to_debug_bitmap, \
+         to_rgba_distance, denoise_normals, apply_shading without SSAO — and Image::apply_effect checked against its definition \
+         pixel (x, y) = f(x, y) at index y*width + x; meshes as sorted multisets of triangles over vertex positions with cyclic order preserved); cancelled before start or at a \
          poll that was reached => None; asynchronous cancel => None or the complete identical result. Plus: one tape \
          evaluated by 2-16 threads released by a barrier (own evaluators, own inputs, all four evaluator kinds) must give \
          each thread exactly its single-threaded results. Non-trivial = polls were observed on >= 2 distinct threads, or the \
